@@ -200,9 +200,28 @@ def summarize(project, func, depth=0):
         if isinstance(n, (ast.For, ast.comprehension)) and isinstance(n.target, ast.Name) \
                 and isinstance(n.iter, ast.Name) and n.iter.id in eff:
             aliases[n.target.id] = n.iter.id
+    # only statements from which the helper can still return normally count: an effect that is
+    # always followed by a raise (e.g. "set the flag, then raise") is not an effect of a normal return
+    cfg = CFG(func.node)
+    live = cfg.reachable(cfg.exit.id, skip_labels=("exc",), forward=False) | {cfg.exit.id}
+    normal_nodes = set()
+    for cn in cfg.nodes:
+        if cn.id in live:
+            for e in cfg.expr_of(cn):
+                for x in ast.walk(e):
+                    normal_nodes.add(id(x))
     for n in own_nodes(func.node):
         if isinstance(n, ast.Raise):
             eff["<fn>"].add("raises")
+        if id(n) not in normal_nodes and not isinstance(n, ast.Raise):
+            # attribute reads still matter for status inspection (exitcode read before a raise)
+            if isinstance(n, ast.Attribute) and isinstance(n.value, ast.Name):
+                v = n.value.id
+                if v in params:
+                    eff[v].add("attr:" + n.attr)
+                elif v in aliases:
+                    eff[aliases[v]].add("each:attr:" + n.attr)
+            continue
         if isinstance(n, ast.Attribute) and isinstance(n.value, ast.Name):
             v = n.value.id
             if v in params:
@@ -216,6 +235,9 @@ def summarize(project, func, depth=0):
                     eff[v].add(n.func.attr)
                     if n.func.attr in ("put", "get"):
                         eff[v].add(n.func.attr + ":" + (put_call_info(n, None) if n.func.attr == "put" else get_call_info(n)))
+                    if n.func.attr in ("put", "put_nowait") and n.args and isinstance(n.args[0], ast.Name) \
+                            and n.args[0].id in params:
+                        eff[n.args[0].id].add("is-put-item")
                 elif v in aliases:
                     eff[aliases[v]].add("each:" + n.func.attr)
             if depth < 2:
